@@ -39,8 +39,8 @@ def run(ck):
                                             name=f"MC_Pruner_{wp}.cfg"), tag=f"mc_{wp}", timeout=3000,
                   required_actions=["ComputeBatch", "RemoveNext", "Tick", "InsertH", "MarkH", "StartSampling"])
     # the composition: real pruner + real daser + syncer designs together (system-level SafeRemoval etc.)
-    for wp in (1, 4):
-        ck.tlc_mc("MC_Node", ck.cfg_with("MC_Node.cfg", {"WPrune": wp, "N": 4 if (ck.quick or wp == 4) else 5},
+    for ws, wp in ((3, 1), (2, 3)):      # pruning window smaller / larger than the sampling window
+        ck.tlc_mc("MC_Node", ck.cfg_with("MC_Node.cfg", {"WSamp": ws, "WPrune": wp, "N": 4 if ck.quick else 5},
                                           name=f"MC_Node_{wp}.cfg"), tag=f"mc_node_{wp}", timeout=3000,
                   required_actions=["ComputeBatch", "RemoveNext", "Schedule", "SampleOk", "FetchNext", "BatchOk"])
     runs = 8 if ck.quick else 60
